@@ -351,8 +351,11 @@ func (re *Regexp) findAllRunesIndex(runner *Runner, input []rune, startAt, n int
 	var out [][]int
 	var flat []int
 	if n > 0 {
-		out = make([][]int, 0, n)
-		flat = make([]int, 0, n*2)
+		// n only limits how many matches are wanted; it is not a promise that
+		// there are that many (and may be huge), so pre-allocate moderately
+		size := min(n, 64)
+		out = make([][]int, 0, size)
+		flat = make([]int, 0, size*2)
 	}
 
 	// An empty match that touches the previous match is dropped. Matches arrive
